@@ -27,3 +27,17 @@ fn count_of_a_column_skips_nulls_count_star_does_not() {
     assert_eq!(ints(&db, "SELECT COUNT(v), SUM(v), MIN(v), MAX(v) FROM t"), vec![vec![Some(3), Some(25), Some(7), Some(10)]], "next to other aggregates");
     assert_eq!(ints(&db, "SELECT COUNT(v) FROM t WHERE g = 2"), vec![vec![Some(0)]], "all-NULL input");
 }
+
+#[test]
+fn distinct_aggregates_feed_each_value_once() {
+    let dir = tempfile::TempDir::new().unwrap();
+    let db = Database::create(dir.path().join("t.db"), DBConfig::default()).unwrap();
+    db.execute("CREATE TABLE t (id BIGINT, g BIGINT, v BIGINT)").unwrap();
+    db.execute("INSERT INTO t VALUES (1, 1, 5), (2, 1, 5), (3, 1, 7), (4, 1, NULL), (5, 2, 9), (6, 2, 9), (7, 2, NULL), (8, 3, NULL)").unwrap();
+    assert_eq!(ints(&db, "SELECT COUNT(DISTINCT v) FROM t"), vec![vec![Some(3)]], "COUNT(DISTINCT v)");
+    assert_eq!(ints(&db, "SELECT COUNT(v) FROM t"), vec![vec![Some(5)]], "COUNT(v) next to it");
+    assert_eq!(ints(&db, "SELECT g, COUNT(DISTINCT v), COUNT(v), COUNT(*) FROM t GROUP BY g"),
+               vec![vec![Some(1), Some(2), Some(3), Some(4)], vec![Some(2), Some(1), Some(2), Some(3)], vec![Some(3), Some(0), Some(0), Some(1)]], "per group");
+    assert_eq!(ints(&db, "SELECT SUM(DISTINCT v), SUM(v) FROM t"), vec![vec![Some(21), Some(35)]], "SUM(DISTINCT v)");
+    assert_eq!(ints(&db, "SELECT COUNT(DISTINCT v), COUNT(DISTINCT g) FROM t"), vec![vec![Some(3), Some(3)]], "two distinct aggregates keep separate sets");
+}
